@@ -456,7 +456,7 @@ def run(ctx):
         return n
 
     r = ctx.model(SPEC, "MC_OutputGate", "MC_OutputGate_table.cfg", name="gate table", workers=8)
-    table = T.emitted(r)
+    table = ordered(T.emitted(r))
     if len(table) < 3000:
         raise T.MachineryError("MC_OutputGate table emitted only %d behaviours" % len(table))
     ctx.extra["table_behaviours"] = len(table)
@@ -465,19 +465,19 @@ def run(ctx):
 
     # ---- spec -> code: sequences
     r = ctx.model(SPEC, "MC_OutputGate", "MC_OutputGate_seq3.cfg", name="all-sequences (length 3, every kind)", workers=8)
-    seqs = T.emitted(r)
+    seqs = ordered(T.emitted(r))
     if len(seqs) < 2000:
         raise T.MachineryError("MC_OutputGate sequences: only %d behaviours" % len(seqs))
     if not quick:
         r = ctx.model(SPEC, "MC_OutputGate", "MC_OutputGate_seq4_sections.cfg", name="all-sequences (length 4, section outputs)",
                       workers=8)
-        deep = T.emitted(r)
+        deep = ordered(T.emitted(r))
         if len(deep) < 100000:
             raise T.MachineryError("MC_OutputGate deep sequences: only %d behaviours" % len(deep))
         seqs += deep
     r = ctx.model(SPEC, "MC_OutputGate", "MC_OutputGate_sim.cfg", name="simulate", simulate="num=%d" % (40 if quick else 1500),
                   depth=13, workers=1, seed=ctx.seed % 100000)
-    sims = T.emitted(r)
+    sims = ordered(T.emitted(r))
     if not sims:
         raise T.MachineryError("MC_OutputGate simulation emitted nothing")
     ctx.extra["sequence_behaviours"] = len(seqs)
@@ -549,6 +549,11 @@ def run(ctx):
     ctx.sample({"random_case": {"real": cases[-1]["real"], "ops": cases[-1]["ops"][:8]}})
     ctx.extra["events_recorded"] = sum(len(t) for t in traces)
     validate_all(ctx, traces, cases, "recorded-calls")
+
+
+def ordered(recs):
+    """TLC's workers print in no fixed order: sort, so that the rotation over realizations is the same in every run"""
+    return [r for _k, r in sorted(((json.dumps(r, sort_keys=True), r) for r in recs), key=lambda x: x[0])]
 
 
 def validate_all(ctx, traces, cases, name):
